@@ -50,6 +50,41 @@ func randTree(r *core.Rand, n, shape, pInv int) []blk {
 	return tree
 }
 
+func maxInt(a, b int) int {
+	if a > b {
+		return a
+	}
+	return b
+}
+
+// relabelWithOps applies one random id permutation to a tree and to the ops that refer to it.
+func relabelWithOps(r *core.Rand, tree []blk, ops *[]op) []blk {
+	n := len(tree)
+	perm := make([]int, n+1)
+	for i := 1; i <= n; i++ {
+		perm[i] = i
+	}
+	for i := n; i > 1; i-- {
+		j := 1 + r.Intn(i)
+		perm[i], perm[j] = perm[j], perm[i]
+	}
+	out := make([]blk, n)
+	for i, b := range tree {
+		b.id = perm[b.id]
+		if b.parent != 0 {
+			b.parent = perm[b.parent]
+		}
+		out[i] = b
+	}
+	sort.Slice(out, func(i, j int) bool { return out[i].id < out[j].id })
+	for i := range *ops {
+		if (*ops)[i].kind != 'R' && (*ops)[i].id != 0 {
+			(*ops)[i].id = perm[(*ops)[i].id]
+		}
+	}
+	return out
+}
+
 func minInt(a, b int) int {
 	if a < b {
 		return a
@@ -610,7 +645,13 @@ func genInvRec(g *core.Gen) {
 		var done []int
 		for j := 0; j < k; j++ {
 			if len(done) > 0 && r.Chance(1, 2) {
-				ops = append(ops, op{'r', done[r.Intn(len(done))]})
+				// reconsider an invalidated block - or ANY block: a descendant, an ancestor or a
+				// sibling of an invalidated one leaves a branch only partly cleared
+				if r.Chance(1, 3) {
+					ops = append(ops, op{'r', ids[r.Intn(len(ids))]})
+				} else {
+					ops = append(ops, op{'r', done[r.Intn(len(done))]})
+				}
 			} else {
 				x := ids[r.Intn(len(ids))]
 				done = append(done, x)
@@ -627,6 +668,66 @@ func genInvRec(g *core.Gen) {
 			tree []blk
 			ops  []op
 		}{tree, ops})
+	}
+	// ---- nested invalidate / reconsider on ONE straight branch that does not win at once:
+	// invalidate Xa, reconsider a strict descendant Xb (the blocks in between stay marked), reconsider
+	// Xa (or invalidate / reconsider further members), then the branch is extended until it has the
+	// most work: every block of it must have become acceptable again
+	for i, n := 0, g.N(60, 600); i < n; i++ {
+		forkH := r.Intn(2) // fork at genesis or at the first main block
+		brLen := 3 + r.Intn(3)
+		mainLen := forkH + brLen + r.Intn(2) // the delivered part of the branch has no more work than the active chain
+		var tree []blk
+		id := 0
+		par := 0
+		for k := 0; k < mainLen; k++ {
+			id++
+			tree = append(tree, blk{id, par, 1, true, true, true, true, 0})
+			par = id
+		}
+		par = forkH
+		var br []int
+		extra := 1 + r.Intn(3)
+		for k := 0; k < mainLen+extra+1; k++ { // long enough to overtake the main chain later
+			id++
+			tree = append(tree, blk{id, par, 1, true, true, true, true, 0})
+			br = append(br, id)
+			par = id
+		}
+		var ops []op
+		for k := 1; k <= mainLen; k++ {
+			ops = append(ops, op{'b', k})
+		}
+		first := br[:brLen] // delivered now: no more work than the active chain
+		if r.Chance(1, 4) {
+			for _, x := range first {
+				ops = append(ops, op{'h', x})
+			}
+		}
+		ops = append(ops, blockOps(first)...)
+		a := r.Intn(brLen - 2)
+		b := a + 2 + r.Intn(brLen-a-2)
+		ops = append(ops, op{'i', first[a]}, op{'r', first[b]})
+		switch r.Intn(4) {
+		case 0:
+			ops = append(ops, op{'r', first[a]})
+		case 1:
+			ops = append(ops, op{'r', first[a+1]}, op{'r', first[a]})
+		case 2:
+			ops = append(ops, op{'i', first[b]}, op{'r', first[a]}, op{'r', first[b]})
+		default:
+			ops = append(ops, op{'r', first[a]}, op{'i', first[r.Intn(brLen)]}, op{'r', first[r.Intn(brLen)]})
+		}
+		if r.Chance(1, 5) {
+			ops = append(ops, op{'R', r.Intn(8)})
+		}
+		ops = append(ops, blockOps(br[brLen:])...) // the branch grows beyond the active chain
+		ops = append(ops, op{'r', first[a]})
+		ops = append(ops, blockOps(br[brLen:])...)
+		cand = append(cand, struct {
+			tree []blk
+			ops  []op
+		}{relabelWithOps(r, tree, &ops), ops})
 	}
 	lines := make([]string, len(cand))
 	for i, c := range cand {
